@@ -10,6 +10,7 @@ CONSTANTS
     MaxLen,     \* bound on the chain length
     MaxRev,     \* bound on the revision counter (constraint)
     Punch,      \* initial value(s) of types.ShouldPunchHoles
+    Sim,        \* TRUE: random-walk scenario generation (arguments sampled, not enumerated)
     Ops         \* which optional action groups are enabled
 
 Init == \E pu \in Punch : Init0(InitNB, pu)
@@ -18,10 +19,28 @@ SnapFiles == {SnapFile(x) : x \in Names}
 \* names a management call may be given: every file, plus one that never exists
 ArgNames == (DOMAIN disks) \cup {"s-none"}
 
+\* I/O arguments: every (offset, length, value) when model checking; a handful of
+\* sampled ones per state in simulation (TLC builds all successors before it picks)
+NS == size * SPB
+SampleRange(k) ==
+    {LET s0 == RandomElement(0..(NS - 1))
+         n  == RandomElement(1..(NS - s0))
+     IN <<s0, n>> : i \in 1..k}
+    \cup {LET b0 == RandomElement(0..(size - 1))
+              bn == RandomElement(1..(size - b0))
+          IN <<b0 * SPB, bn * SPB>> : i \in 1..k}
+    \cup {LET s0 == RandomElement(0..(NS - 1))
+              n  == RandomElement(1..(IF NS - s0 < 4 THEN NS - s0 ELSE 4))
+          IN <<s0, n>> : i \in 1..k}
+IORanges == IF Sim THEN SampleRange(3)
+            ELSE {<<s0, n>> : s0 \in 0..(NS - 1), n \in 1..NS} \cap
+                 {r \in (0..(NS - 1)) \X (1..NS) : r[1] + r[2] <= NS}
+WriteVals == IF Sim THEN {((rev + headN * 31) % MaxV) + 1} ELSE 1..MaxV
+
 Next ==
-    \/ \E s0 \in 0..(size * SPB - 1) : \E n \in 1..(size * SPB - s0) : \E v \in 1..MaxV :
-          Write(s0, n, v)
-    \/ ("read" \in Ops /\ \E s0 \in 0..(size * SPB - 1) : \E n \in 1..(size * SPB - s0) : Read(s0, n))
+    \/ \E r \in IORanges : \E v \in WriteVals : Write(r[1], r[2], v)
+    \/ ("read" \in Ops /\ \E r \in (IF Sim THEN {rr \in IORanges : rr[1] % 2 = 0} \cup {<<0, NS>>} ELSE IORanges) :
+            Read(r[1], r[2]))
     \/ (headN < MaxHead /\ Len(chain) < MaxLen /\ \E x \in Names : \E u \in BOOLEAN : Snapshot(x, u))
     \/ ("dup" \in Ops /\ open /\ \E x \in Names : SnapFile(x) \in DOMAIN disks /\ Snapshot(x, TRUE))
     \/ \E n \in ArgNames : PrepareRemove(n)
@@ -30,7 +49,12 @@ Next ==
     \/ \E n \in ArgNames :
           /\ (InChain(n) /\ ~Protected(n)) => cleaner = [st |-> "folded", name |-> n]
           /\ RemoveDisk(n)
-    \/ ("revert" \in Ops /\ headN < MaxHead /\ \E n \in ArgNames : Revert(n))
+    \* C06 promises nothing about reverting to an automatic snapshot while
+    \* reclamation is thinning it: with a punch in flight only user snapshots
+    \* (and invalid names) are reverted to
+    \/ ("revert" \in Ops /\ headN < MaxHead /\ \E n \in ArgNames :
+            /\ (n \in DOMAIN disks /\ n # HeadF /\ ~disks[n].user) => holeQ = {}
+            /\ Revert(n))
     \/ ("resize" \in Ops /\ \E nb \in {size - 1, size, size + 1} \cap (0..MaxNB) : Resize(nb))
     \/ ("reopen" \in Ops /\ (Close \/ Open \/ Reload \/ \E p \in BOOLEAN : SetPreload(p)))
     \/ ("mode" \in Ops /\ \E m \in {"RW", "WO", "ERR"} : SetMode(m))
